@@ -111,6 +111,45 @@ def register(reg):
         modifies=["_source_density:real", "$d1:real", "$len"])
 
 
+def _new_array_1d(eng, st, n, name):
+    from pyvc.values import to_int
+    o = eng.new_obj(st, 'ndarray', 'arr', 'real', 1, name=name)
+    st.heap['$len'] = z3.Store(eng.field(st, '$len'), o.ref, to_int(n))
+    return o
+
+
+def register_calc_attenuation(reg):
+    """_calc_attenuation hands _beam_attenuation the beam's own energy, power and mass and, as direction, the image of the beam axis under
+    the beam -> plasma transform (a VECTOR transform: the third column of the rotation part for BEAM_AXIS = (0, 0, 1)); the interaction
+    velocity - and with it the stopping coefficient S - is taken relative to this direction."""
+    A = "cherab/core/model/attenuator/singleray.pyx"
+    ext = {'SingleRayAttenuator._beam_attenuation': {'kind': 'logged', 'result': 'ref:ndarray', 'alloc': True, 'label': '_beam_attenuation', 'override': True,
+                                                     'doc': '_beam_attenuation (verified separately)'},
+           'AffineMatrix3D.__new__': {'kind': 'fresh', 'result': 'ref:AffineMatrix3D', 'alloc': True, 'doc': 'raysect matrix allocation'},
+           'Point3D.__new__': {'kind': 'fresh', 'result': 'ref:Point3D', 'alloc': True, 'doc': 'raysect point allocation'},
+           'Vector3D.__new__': {'kind': 'fresh', 'result': 'ref:Vector3D', 'alloc': True, 'doc': 'raysect vector allocation'},
+           '_NodeBase.to': {'kind': 'pure', 'override': True, 'result': 'ref:AffineMatrix3D', 'fname': 'node_to', 'doc': 'raysect Node.to()'},
+           'Vector3D.transform': {'kind': 'pure', 'override': True, 'result': 'ref:Vector3D', 'fname': 'vec_transform', 'doc': 'raysect Vector3D.transform(matrix)'},
+           'Point3D.transform': {'kind': 'pure', 'override': True, 'result': 'ref:Point3D', 'fname': 'pt_transform', 'doc': 'raysect Point3D.transform(matrix)'},
+           '.to': {'kind': 'pure', 'override': True, 'result': 'ref:AffineMatrix3D', 'doc': 'raysect Node.to(): transform between node coordinate systems'},
+           '.transform': {'kind': 'pure', 'override': True, 'result': 'ref', 'doc': 'raysect Vector3D/Point3D.transform(matrix)'},
+           'new_point3d': {'kind': 'pure', 'override': True, 'result': 'ref:Point3D', 'doc': 'raysect new_point3d'},
+           'new_vector3d': {'kind': 'pure', 'override': True, 'result': 'ref:Vector3D', 'doc': 'raysect new_vector3d'},
+           'ceil': {'kind': 'pure', 'result': 'real', 'doc': 'numpy.ceil'},
+           'linspace': {'kind': 'custom', 'fn': lambda eng, st, fr, recv, args, kwargs: _new_array_1d(eng, st, args[2], 'linspace'),
+                        'doc': 'numpy.linspace(a, b, n): new 1-D array of length n (contents not modelled)'},
+           'zeros': {'kind': 'custom', 'fn': lambda eng, st, fr, recv, args, kwargs: _new_array_1d(eng, st, args[0], 'zeros'),
+                     'doc': 'numpy.zeros(n): new 1-D array of length n'},
+           'Interpolator1DArray()': {'kind': 'logged', 'result': 'ref:Interpolator1DArray', 'alloc': True, 'label': 'Interpolator1DArray', 'doc': 'raysect interpolator'},
+           'tan': {'kind': 'pure', 'result': 'real', 'doc': 'libc tan'}}
+    reg.contract(A, "SingleRayAttenuator._calc_attenuation", PROP, name='arguments', externals=ext,
+        requires=["not is_none(self._beam)", "not is_none(self._plasma)"],
+        loops={0: dict(index='k', invariant=["0 <= k", "length(xaxis) == nbeam and length(yaxis) == nbeam and length(zaxis) == nbeam and length(beam_z) == nbeam"])},
+        ensures=[("attenuation_call", call_cases(['_beam_attenuation'], [
+            ("True", [('_beam_attenuation', [None, None, None, None, "self._beam._energy", "self._beam._power", "self._beam._element.atomic_weight",
+                                            "self._beam.BEAM_AXIS.transform(self._beam.to(self._plasma))"])])]))])
+
+
 def direction_post(P):
     """z > 0: the result is normalise() of the vector (x z^2 tan_x^2 / sx^2, y z^2 tan_y^2 / sy^2, z)."""
     res = P.result
@@ -205,6 +244,45 @@ print(json.dumps({"density_before_move": d0, "density_after_move": d1, "density_
         return {'confirmed': bool(out) and out.get('equal') is False, 'observed': out,
                 'input': 'beam without emission models: density(0,0,3); beam.transform = translate(1.8, 0, -2); density(0,0,3)',
                 'expected': 'density equals that of a beam built at the new position'}
+    if '_calc_attenuation' in o.name:
+        # frame invariance: a beam placed with transform R in a plasma flowing with u must show the on-axis density of an unrotated beam
+        # in a plasma flowing with R^-1 u (energy-dependent stopping rate, so the interaction velocity matters)
+        code = """
+import math
+from raysect.core import World, Vector3D, translate, rotate_x, rotate_y, rotate_z
+from cherab.core import Beam
+from cherab.core.atomic import AtomicData, BeamStoppingRate, deuterium
+from cherab.core.model import SingleRayAttenuator
+from cherab.tools.plasmas.slab import build_constant_slab_plasma
+class _Rate(BeamStoppingRate):
+    def evaluate(self, energy, density, temperature):
+        return 1e-13 * (energy / 5e4) ** 2
+class _Data(AtomicData):
+    def beam_stopping_rate(self, beam_ion, plasma_ion, charge):
+        return _Rate()
+def on_axis(transform, flow):
+    world = World(); data = _Data()
+    plasma = build_constant_slab_plasma(length=1, width=1, height=1, electron_density=1e19, electron_temperature=1e3,
+                                        plasma_species=[(deuterium, 1, 1e19, 1e3, flow)])
+    plasma.atomic_data = data; plasma.parent = world
+    beam = Beam(transform=transform); beam.atomic_data = data; beam.plasma = plasma; beam.attenuator = SingleRayAttenuator()
+    beam.energy = 5e4; beam.power = 1e6; beam.element = deuterium; beam.sigma = 0.1; beam.length = 3.0; beam.parent = world
+    return [beam.density(0, 0, z) for z in (0.5, 1.5, 2.5)]
+# a rotated beam in a plasma flowing with u must see what an unrotated beam sees in a plasma flowing with R^-1 u
+bad = []; n = 0
+u = Vector3D(2e5, -1.5e6, 8e5)
+for name, rot in (("translate(1,2,3)", translate(1, 2, 3)), ("rotate_z(40)", rotate_z(40)), ("rotate_x(90)", rotate_x(90)), ("rotate_x(-35)", rotate_x(-35)),
+                  ("rotate_y(25)*rotate_x(-50)", rotate_y(25) * rotate_x(-50)), ("translate(0.3,0,1)*rotate_y(120)", translate(0.3, 0, 1) * rotate_y(120))):
+    got = on_axis(rot, u)
+    want = on_axis(translate(0, 0, 0), u.transform(rot.inverse()))
+    n += 1
+    if not all(abs(a - b) <= 1e-9 * abs(b) for a, b in zip(got, want)):
+        bad.append({"beam_transform": name, "plasma_flow": [u.x, u.y, u.z], "on_axis_density_z_0.5_1.5_2.5": got, "same_configuration_seen_from_the_beam_frame": want})
+print(json.dumps({"cases": n, "bad": bad[:3], "nbad": len(bad)}))
+"""
+        out = run_native(ctx, code, timeout=600)
+        return {'confirmed': bool(out) and bool(out.get('nbad')), 'observed': out, 'input': out['bad'][0] if out and out.get('bad') else None,
+                'expected': 'the same on-axis density as the identical configuration described in the beam frame'}
     if 'SingleRayAttenuator' not in o.name:
         return None
     code = scene + '''
@@ -237,6 +315,7 @@ _register_own = register
 def register(reg, ctx=None):
     """plus: the container mutators and scene-graph hooks the derived beam state hangs on always notify (shared with C01)"""
     _register_own(reg)
+    register_calc_attenuation(reg)
     from .C01 import register_notifying_mutators
     register_notifying_mutators(reg, PROP)
 
